@@ -27,6 +27,8 @@ class Contract:
         # entry assumptions of THIS verification only (not required from callers); each is listed in the evidence
         self.assumes = kw.pop('assumes', [])
         self.why_assumed = kw.pop('why_assumed', '')
+        # class of `self` when the function is inherited and verified for a subclass receiver (dynamic dispatch)
+        self.self_class = kw.pop('self_class', None)
         self.props = kw.pop('props', [])
         self.types = kw.pop('types', {})
         self.requires = kw.pop('requires', [])
